@@ -656,7 +656,7 @@ func (index *setIndex) CheckIntegrity(ctx MutateContext, fix bool, errorSink fun
 							index.symbol.GetStore().GetEntityType(), index.GetSymbol().GetName(), string(key)), fix)
 					}
 				}
-			} else {
+			} else if fix {
 				// If key has no values, delete the key
 				if err := cursor.Delete(); err != nil {
 					return err
@@ -681,10 +681,18 @@ func (index *setIndex) CheckIntegrity(ctx MutateContext, fix bool, errorSink fun
 		valuesCursor := setBucket.Cursor()
 		for val, _ := valuesCursor.First(); val != nil; val, _ = valuesCursor.Next() {
 			_, value := GetTypeAndValue(val)
-			idxBucket := index.getIndexBucket(tx, value)
 			key := PrependFieldType(TypeString, id)
-			if !idxBucket.IsKeyPresent(key) {
+			// only look the index bucket up when checking; creating it is part of the fix
+			var idxBucket *TypedBucket
+			if indexBaseBucket := Path(tx, index.indexPath...); indexBaseBucket != nil {
+				idxBucket = indexBaseBucket.GetBucketByKey(value)
+			}
+			if idxBucket == nil || !idxBucket.IsKeyPresent(key) {
 				if fix {
+					idxBucket = index.getIndexBucket(tx, value)
+					if idxBucket.HasError() {
+						return idxBucket.GetError()
+					}
 					if err := idxBucket.Put(key, nil); err != nil {
 						return err
 					}
